@@ -10,7 +10,9 @@ EXPLANATION = (
     "main loop: data-race freedom by lock discipline - the hand-off queue is only touched under "
     "queue_mutex_, the inotify descriptors only under event_loop_mutex_ (held by every non-constructor/"
     "destructor call path), the directory-deleted flag is atomic, the remaining shared fields are never "
-    "written after construction, the engine reference is used only on the tick thread; no mutable "
+    "written after construction, every further field of the two classes reached from both threads with "
+    "a write outside construction has one common lock (generic audit, also covers fields added "
+    "later), the engine reference is used only on the tick thread; no mutable "
     "global or static is touched by both threads outside an audited table; the lock-order graph is "
     "acyclic (no deadlock by lock inversion); no exception can escape the watcher thread's entry "
     "function; the watcher's abort points are the enumerated ones; dot-files never reach the queue; "
@@ -58,7 +60,9 @@ def run(ctx):
     ctx.anchor(ctx.fn1('Oomd::FsDropInService::processDropInAdd'), 'file')
     ctx.anchor(ctx.fn1('Oomd::FsDropInService::processDropInRemove'), 'file')
     P, cg = ctx.prog, ctx.cg
-    LA = LockAnalysis(P, cg)
+    cd = {f.usr for f in P.fns.values() if f.kind in ("ctor", "dtor") and f.cls in ("Oomd::FsDropInService", "Oomd::DropInServiceAdaptor")}
+    # entry-held sets: constructor/destructor call sites do not count (thread not started / joined)
+    LA = LockAnalysis(P, cg, ignore_callers=cd)
     run_f = ctx.fn1("Oomd::FsDropInService::run")
     upd = ctx.fn1("Oomd::DropInServiceAdaptor::updateDropIns")
     ctx.check(any(t == run_f.usr for t, _, _ in cg.thread_roots), "watcher-thread-root", "thread-root", run_f.loc(),
@@ -70,36 +74,27 @@ def run(ctx):
     ctx.counters["tick_reachable_functions"] = len(T)
     ctx.floor("watcher_reachable_functions", 100, "functions reachable from the watcher thread")
 
-    # entry-held sets: constructor/destructor call sites do not count (thread not started / joined)
-    class LA2(LockAnalysis):
-        pass
-    cd = {f.usr for f in P.fns.values() if f.kind in ("ctor", "dtor") and f.cls in ("Oomd::FsDropInService", "Oomd::DropInServiceAdaptor")}
-    saved = {u: list(cg.inn.get(u, [])) for u in cg.inn}
-    for u in cg.inn:
-        cg.inn[u] = [e for e in cg.inn[u] if e.src not in cd]
-    try:
-        # ------------------------------------------------ guarded-by tables
-        for fld, mtx, floor in (("Oomd::DropInServiceAdaptor::drop_in_queue_", QM, 3),
-                                ("Oomd::FsDropInService::inotifyfd_", EM, 4),
-                                ("Oomd::FsDropInService::inotifywd_", EM, 2)):
-            n = 0
-            for f, i in LA.field_accesses(fld):
-                if f.usr in cd:
-                    continue
-                n += 1
-                ctx.use(f)
-                h = LA.held(f, i)
-                ctx.check(mtx in h, "%s-under-%s:%s" % (fld.split("::")[-1], mtx.split("::")[-1], short(owner_of(P, f))), "guarded_by(lockset)", f.loc(i),
-                          "%s is accessed with %s held" % (fld.split("::")[-1], mtx.split("::")[-1]),
-                          "%s is accessed without %s (held: %s): data race between the watcher thread and the main loop" % (
-                              fld.split("::")[-1], mtx.split("::")[-1], sorted(x.split("::")[-1] for x in h) or "none"))
-            ctx.counters["accesses:" + fld.split("::")[-1]] = n
-            if n < floor:
-                ctx.broken("floor:" + fld, "instance-floor", "-", "only %d accesses of %s found (floor %d)" % (n, fld, floor))
-        edges = LA.order_edges()
-    finally:
-        for u in saved:
-            cg.inn[u] = saved[u]
+    # ------------------------------------------------ guarded-by tables
+    for fld, mtx, floor in (("Oomd::DropInServiceAdaptor::drop_in_queue_", QM, 3),
+                            ("Oomd::FsDropInService::inotifyfd_", EM, 4),
+                            ("Oomd::FsDropInService::inotifywd_", EM, 2)):
+        n = 0
+        for f, i in LA.field_accesses(fld):
+            if f.usr in cd:
+                continue
+            n += 1
+            ctx.use(f)
+            h = LA.held(f, i)
+            ctx.check(mtx in h, "%s-under-%s:%s" % (fld.split("::")[-1], mtx.split("::")[-1], short(owner_of(P, f))), "guarded_by(lockset)", f.loc(i),
+                      "%s is accessed with %s held" % (fld.split("::")[-1], mtx.split("::")[-1]),
+                      "%s is accessed without %s (held: %s): data race between the watcher thread and the main loop" % (
+                          fld.split("::")[-1], mtx.split("::")[-1], sorted(x.split("::")[-1] for x in h) or "none"))
+        ctx.counters["accesses:" + fld.split("::")[-1]] = n
+        if n < floor:
+            ctx.broken("floor:" + fld, "instance-floor", "-", "only %d accesses of %s found (floor %d)" % (n, fld, floor))
+    edges = LA.order_edges()
+    # every other field of the two classes (also ones added later): shared + written => one common lock
+    shared_fields_rule(ctx, LA, ["Oomd::FsDropInService", "Oomd::DropInServiceAdaptor"], {"watcher": run_f.usr}, floor=3)
     # the destructor's unlocked deregistration: audited
     dt = [f for f in P.fns.values() if f.pq == "Oomd::FsDropInService::~FsDropInService"]
     for f in dt:
